@@ -169,6 +169,8 @@ Obl(e) ==
   CASE e.op = "Run" -> RunObl(e)
     [] e.op = "Verify" -> VerifyObl(e)
     [] e.op = "RLEval" -> RLObl(e)
+    \* an honest value presented under every other 16-bit token type: never accepted
+    [] e.op = "TypeSweep" -> << <<"quiet", e.panic = "">>, <<"only-own-type-accepted", e.accepted = 0 /\ e.tried > 0>> >>
     [] e.op = "Det" -> DetObl(e)
     [] e.op = "DetNew" -> <<>>
     [] e.op = "DetStress" -> StressObl(e)
